@@ -226,7 +226,7 @@ func (s *sim) killRun(sp *runSpec, k int) (string, bool) {
 	s.r = nil // the previous process is gone; the child is the new one
 	r0 := time.Now()
 	s.normalise(r0)
-	sc := &script{answer: buildAnswer(sp.fetch, sp.signers, sp.bad)}
+	sc := &script{answer: sp.answer()}
 	sc.hook = func() {
 		if s.fetchProbe != nil {
 			s.fetchProbe()
@@ -532,6 +532,8 @@ type runSpec struct {
 	signers   []kref
 	bad       []badSig
 	extras    []extra
+	timed     []timedSig // time-bounded RRSIGs over the root DNSKEY RRset
+	baseSig   []kref     // signers as written on the op line (sp.signers also holds the valid timed ones)
 	fStateRd  bool
 	fTombRd   bool
 	fTombWr   bool
@@ -540,6 +542,36 @@ type runSpec struct {
 }
 
 var outcomeNames = []string{"ok", "work", "timeout", "qerr", "verr", "perr"}
+
+// parseOptional reads the optional tokens of a run / probe line and folds the time-bounded
+// signatures that are inside their window into the ground-truth signer list.
+func (sp *runSpec) parseOptional(toks []string) {
+	sp.baseSig = sp.signers
+	for _, x := range toks {
+		switch {
+		case strings.HasPrefix(x, "bad="):
+			sp.bad = parseBad(x[4:])
+		case strings.HasPrefix(x, "x="):
+			sp.extras = parseExtras(x[2:])
+		case strings.HasPrefix(x, "ts="):
+			sp.timed = parseTimed(x[3:])
+		}
+	}
+	for _, t := range sp.timed {
+		if t.valid() {
+			sp.signers = append(append([]kref(nil), sp.signers...), t.key)
+		}
+	}
+}
+
+func (sp *runSpec) answer() []dns.RR {
+	base := sp.baseSig
+	if base == nil && len(sp.timed) == 0 {
+		base = sp.signers
+	}
+	out := buildAnswer(sp.fetch, base, sp.bad, sp.extras...)
+	return append(out, timedRRSIGs(sp.fetch, sp.timed)...)
+}
 
 // run executes one AutoTA refresh under the given faults and returns the
 // refresh outcome name.
@@ -561,7 +593,7 @@ func (s *sim) run(sp *runSpec) string {
 	}
 	sc := &script{fail: sp.fetchNone}
 	if !sp.fetchNone {
-		sc.answer = buildAnswer(sp.fetch, sp.signers, sp.bad, sp.extras...)
+		sc.answer = sp.answer()
 	}
 	s.preLive = "none"
 	sc.hook = func() {
@@ -782,15 +814,8 @@ func exec(op string) vlib.Res {
 			return vlib.Res{Impl: "bad-op"}
 		}
 		sp := &runSpec{crash: -1, fetch: parseRefs(f[2]), signers: parseRefs(f[3])}
-		for _, x := range f[4:] {
-			if strings.HasPrefix(x, "bad=") {
-				sp.bad = parseBad(x[4:])
-			}
-			if strings.HasPrefix(x, "x=") {
-				sp.extras = parseExtras(x[2:])
-			}
-		}
-		cur.Store(&script{answer: buildAnswer(sp.fetch, sp.signers, sp.bad, sp.extras...)})
+		sp.parseOptional(f[4:])
+		cur.Store(&script{answer: sp.answer()})
 		defer cur.Store(nil)
 		req := new(dns.Msg)
 		req.SetQuestion(".", dns.TypeDNSKEY)
@@ -864,14 +889,7 @@ func exec(op string) vlib.Res {
 		if f[5] != "-" {
 			sp.crash = vlib.Atoi(f[5])
 		}
-		for _, x := range f[6:] {
-			if strings.HasPrefix(x, "bad=") {
-				sp.bad = parseBad(x[4:])
-			}
-			if strings.HasPrefix(x, "x=") {
-				sp.extras = parseExtras(x[2:])
-			}
-		}
+		sp.parseOptional(f[6:])
 		pre := S.orc.before(S, sp)
 		outcome := S.run(sp)
 		verdict, tags := S.orc.after(S, sp, pre, outcome)
@@ -880,6 +898,9 @@ func exec(op string) vlib.Res {
 		}
 		if len(sp.bad) > 0 {
 			tags += ",bad-rrsig"
+		}
+		if len(sp.timed) > 0 {
+			tags += ",timed-rrsig"
 		}
 		if S.strayTemp() && verdict == "ok" {
 			verdict = "FAIL sig=autota/atomic-write/temp-file-left-behind"
